@@ -2,10 +2,10 @@
 package c04
 
 import (
-	"sync"
-	"strings"
 	"bytes"
 	"fmt"
+	"strings"
+	"sync"
 	"testing"
 
 	"pgregory.net/rapid"
@@ -20,7 +20,7 @@ import (
 
 func TestMain(m *testing.M) {
 	harness.Property("C04",
-		"per generated scenario (one or two messages A->B, LZHUF or gzip proposals, generated read schedules) the clean A->B byte stream is recorded and every SOH..EOT frame located by the reference frame parser; then alterations of the frame bytes are ENUMERATED and applied in transit: every offset x {+1, ^0x80, one seeded value} substitution, all 255 substitutions at every structural byte (SOH, header length, NULs, offset digits, STX, block lengths, EOT, checksum), every single-byte deletion, one seeded insertion per offset, and checksum-compensating pairs (+d at i, -d at j; d in {1,2,0x10,0x80}) over all pairs within the last 32 payload bytes plus a seeded sample of all pairs, every value at each of the six payload-header bytes (CRC-16, size) with the block checksum compensated at another byte, and both CRC bytes forced to 0000/ffff/00ff with one compensation. An independent judge (reference frame parser + strict LZHUF/gzip decoder + CRC-16 + sizes) classifies each altered frame. Non-trivial = alteration the judge rejects; distinct by hash(scenario, alteration).",
+		"per generated scenario (one or two messages A->B, LZHUF or gzip proposals, generated read schedules) the clean A->B byte stream is recorded and every SOH..EOT frame located by the reference frame parser; then alterations of the frame bytes are ENUMERATED and applied in transit: every offset x {+1, ^0x80, one seeded value} substitution (inside the frame header also NUL, '0' and '9' at every byte; subjects ending in digits are generated), all 255 substitutions at every structural byte (SOH, header length, NULs, offset digits, STX, block lengths, EOT, checksum), every single-byte deletion, one seeded insertion per offset, and checksum-compensating pairs (+d at i, -d at j; d in {1,2,0x10,0x80}) over all pairs within the last 32 payload bytes plus a seeded sample of all pairs, every value at each of the six payload-header bytes (CRC-16, size) with the block checksum compensated at another byte, and both CRC bytes forced to 0000/ffff/00ff with one compensation. Each worker enumerates one scenario completely and then 10 (thorough: 30) further scenarios with the cheap part of the enumeration only (frame header bytes, EOT and checksum with all values, every 40th other byte, block-level alterations, 20 pairs). An independent judge (reference frame parser + strict LZHUF/gzip decoder + CRC-16 + sizes) classifies each altered frame. Non-trivial = alteration the judge rejects; distinct by hash(scenario, alteration).",
 		"alterations the independent judge accepts as a fully valid frame of the same proposal (e.g. a change confined to the title text) only have to be delivered byte-identical or not at all",
 	)
 	harness.Main(m)
@@ -313,15 +313,37 @@ func warmUp() {
 func TestProp(t *testing.T) {
 	rapid.Check(t, func(t *rapid.T) {
 		warmUp()
+		// one scenario with the complete enumeration, then many scenarios (other titles, sizes, block shapes, second
+		// messages) with the cheap part of it only: frame header, structural bytes and block-level alterations
 		sc := genScenario(t)
+		sm := gen.NewSM(rapid.Uint64().Draw(t, "seed"))
+		if !explore(t, sc, sm, false) {
+			return
+		}
+		for i, n := 0, harness.Scale(10, 30); i < n; i++ {
+			if !explore(t, genScenario(t), sm, true) {
+				return
+			}
+		}
+	})
+}
+
+// explore enumerates the alterations of every frame of one scenario; light = header, structural and block-level
+// alterations only. It reports false after a violation.
+func explore(t *rapid.T, sc scen.Scenario, sm *gen.SM, light bool) bool {
+	{
 		clean, frames, _, sig, msg := runClean(sc)
 		harness.Eval()
 		if sig != "" {
 			harness.Fail(t, sig, Case{Sc: sc}, "%s", msg)
-			return
+			return false
+		}
+		if light {
+			harness.Label("scenario:light(header, structural bytes, block-level alterations)")
+		} else {
+			harness.Label("scenario:full-enumeration")
 		}
 		key := harness.Hash(fmt.Sprintf("%+v", sc))
-		sm := gen.NewSM(rapid.Uint64().Draw(t, "seed"))
 		for _, f := range frames {
 			var alts [][]stream.Edit
 			structural := map[int]bool{}
@@ -329,17 +351,29 @@ func TestProp(t *testing.T) {
 				structural[f.start+o] = true
 			}
 			bigFrame := f.end-f.start > 2000
+			if tl := f.parsed.Title; len(tl) > 1 && tl[len(tl)-1] == '0' {
+				harness.Label("frame:title-ends-in-0(reads as an offset when the title is cut)")
+			}
 			nBytes := 0
 			for off := f.start; off < f.end; off++ {
 				if bigFrame && !structural[off] && sm.Intn(12) != 0 {
 					continue // big frames: structural bytes completely, every 12th other byte (seeded)
 				}
+				inHeader := off < f.start+2+int(f.parsed.LenByte)
+				if light && !inHeader && !(structural[off] && off >= f.end-2) && sm.Intn(40) != 0 {
+					continue // light: the frame header, EOT and checksum, and every 40th other byte (seeded)
+				}
 				nBytes++
 				orig := clean[off]
 				vals := []byte{orig + 1, orig ^ 0x80, byte(sm.Next())}
+				if off >= f.start+2 && off < f.start+2+int(f.parsed.LenByte) {
+					// inside the frame header (title NUL offset NUL): the field separator and a digit at every byte, so
+					// that a title cut in two, or a title whose tail reads as an offset, is among the alterations
+					vals = append(vals, 0x00, '0', '9')
+				}
 				// all 255 values at structural bytes; in big frames only at the frame header, the first two and the
 				// last two blocks' STX/length bytes, EOT and checksum (the other block headers get the three values)
-				if structural[off] && (!bigFrame || off < f.start+2+int(f.parsed.LenByte)+2*(2+125) || off >= f.end-2-2*(2+125)) {
+				if structural[off] && (!light || off >= f.end-2) && (!bigFrame || off < f.start+2+int(f.parsed.LenByte)+2*(2+125) || off >= f.end-2-2*(2+125)) {
 					vals = vals[:0]
 					for v := 0; v < 256; v++ {
 						vals = append(vals, byte(v))
@@ -428,6 +462,17 @@ func TestProp(t *testing.T) {
 			if len(tail) > 32 {
 				tail = tail[len(tail)-32:]
 			}
+			if light {
+				tail = nil
+				if len(dataOffs) > 8 {
+					for k := 0; k < 20; k++ { // a few sum-preserving pairs only
+						a, b := sm.Intn(len(dataOffs)), sm.Intn(len(dataOffs))
+						if a != b {
+							pair(dataOffs[a], dataOffs[b], []byte{1, 2, 0x10, 0x80}[sm.Intn(4)])
+						}
+					}
+				}
+			}
 			for a := 0; a < len(tail); a++ {
 				for b := a + 1; b < len(tail); b++ {
 					for _, d := range []byte{1, 2, 0x10, 0x80} {
@@ -435,7 +480,7 @@ func TestProp(t *testing.T) {
 					}
 				}
 			}
-			for k := 0; k < harness.Scale(300, 3000) && len(dataOffs) > 1; k++ {
+			for k := 0; !light && k < harness.Scale(300, 3000) && len(dataOffs) > 1; k++ {
 				a, b := sm.Intn(len(dataOffs)), sm.Intn(len(dataOffs))
 				if a != b {
 					pair(dataOffs[a], dataOffs[b], []byte{1, 2, 0x10, 0x80}[sm.Intn(4)])
@@ -443,7 +488,7 @@ func TestProp(t *testing.T) {
 			}
 			// payload header (CRC-16, size): every value at each of its six bytes, with the block checksum
 			// compensated at another data byte; and both CRC bytes forced to a constant with one compensation
-			if len(dataOffs) > 8 {
+			if !light && len(dataOffs) > 8 {
 				for h := 0; h < 6; h++ {
 					for v := 0; v < 256; v++ {
 						i := dataOffs[h]
@@ -504,7 +549,7 @@ func TestProp(t *testing.T) {
 				}
 				if sig != "" {
 					harness.Fail(t, sig, c, "%s", msg)
-					return
+					return false
 				}
 				if harness.WantSample() && r.judgeRejects && nsamp < 2 && sm.Intn(500) == 0 {
 					nsamp++
@@ -512,7 +557,8 @@ func TestProp(t *testing.T) {
 				}
 			}
 		}
-	})
+	}
+	return true
 }
 
 func TestReplay(t *testing.T) {
